@@ -32,11 +32,22 @@ THEOREMS = [
     'IblVerif.C04.rerun_partial_folders_counterexample',
     'IblVerif.C04.rerun_after_delete_noop',
     'IblVerif.C04.np21_trailing_compress_counterexample',
+    # runs as effect sequences (Model/ConverterSteps.lean): interruption between ANY two effects
+    'IblVerif.C04.uninterrupted_run_is_effect_list',
+    'IblVerif.C04.status_table',
+    'IblVerif.C04.interrupted_run_is_prefix',
+    'IblVerif.C04.prefix_recoverable',
+    'IblVerif.C04.original_recoverable_any_prefix',
+    'IblVerif.C04.original_removed_only_after_check',
+    'IblVerif.C04.rerun_after_any_prefix_completes',
+    'IblVerif.C04.partial_selection_keeps_original',
 ]
 RULE = ('histories of 1..4 (thorough: ..5) calls, each either NP2Converter(file, post_check, delete_original, compress).process(overwrite) on a new '
         'object or (about half of the calls after the first) process(overwrite) once more on the SAME object, on a tiny '
-        'recording (600..3700 samples x 385 channels, window 1200 or 1800, i.e. 1..5 processing and 1..4 verification windows; real fixture metadata: NP2.4 with '
-        'the shank map folded to 1..4 shanks, NP2.1, NP1; original as .bin or .cbin); every call draws the three options and overwrite '
+        'recording (600..3700 samples x 385 channels, window 1200 or 1800, i.e. 1..5 processing and 1..4 verification windows, plus one staple of 30600 samples '
+        '-- longer than one second -- with window 30000; real fixture metadata: NP2.4 with '
+        'the shank map folded to 1..4 shanks, NP2.1, NP1; original as .bin or .cbin; for NP2.4 sometimes with init_params(nshank=[...]) naming one shank, a '
+        'non-prefix subset or all shanks -- staples: [0], [2], [1, 3] of four shanks under all 8 option triples, forced again on the same object); every call draws the three options and overwrite '
         'uniformly, an interruption (none 45 %, else the j-th _split2shanks / write_meta_data / Reader.read inside check_NP24 / '
         'Reader.compress_file call or delete_NP24, index biased to 0, last, one past the last) and, for NP2.4, sometimes an unfaithful '
         'split (one AP sample of one shank altered before it is written, in a row of the first, a middle or the last verification window) '
@@ -46,7 +57,17 @@ RULE = ('histories of 1..4 (thorough: ..5) calls, each either NP2Converter(file,
         'stream: .bin absent / first k windows / whole good / whole altered, .cbin decoded and compared, .ch, .cbin_tmp, .meta compared '
         'with the reference text, any unexpected file; check_completed / already_exists of the live object) and compared token by token with Converter.run.  Non-trivial = at least one call '
         'of the history wrote to the disk or raised; distinct by (configuration, call sequence).  Thorough adds every single call '
-        '(8 option triples x overwrite x every interruption point) from the fresh and from the completed state of one configuration per kind.')
+        '(8 option triples x overwrite x every interruption point) from the fresh and from the completed state of one configuration per kind.  '
+        'When the translator tie breaks the quick tier is escalated to: every staple, every same-object sequence, effect-sequence cases and generated '
+        'histories at three times the quick depth (the exhaustive single-call sweep stays in the thorough tier).  '
+        'Effect sequences (ops trace / prefix): the last call of a short history (0..2 prior calls: none, complete uncompressed / compressed, '
+        'interrupted at a split / metadata / verification / compression point; NP2.4 and NP2.1, original .bin or .cbin, unfinalised headers, '
+        'sometimes an unfaithful split, sometimes the same object once more) is run once uninterrupted with every hook it passes recorded in '
+        'order (s _split2shanks, m write_meta_data, v Reader.read inside check_NP24, b entry of compress_file, c inside it with the .cbin_tmp '
+        'present, C after it returned and before the .bin is unlinked, d delete_NP24) and compared with the hook projection of the model\'s '
+        'effect list and with statusObj; then again with the environment raising at the k-th hook WHATEVER its kind (k boundary-biased: 0, '
+        'last, one past the last, the first hook of every kind, the b / C boundaries that no named interruption point has; thorough: every k '
+        'for the first scenarios), the abstracted disk and object flags compared with the state after the effects before that hook.')
 ASSUMPTIONS = [
     'interruptions are Python exceptions raised at the call boundaries listed in RULE (not power loss between two syscalls); an interrupted '
     'compress_file leaves a .cbin_tmp and has not yet written the .ch (mtscomp writes the data file first)',
@@ -57,6 +78,20 @@ ASSUMPTIONS = [
     'the unfaithful split alters one AP (non-sync) sample (any row): check_NP24 compares the sync column of the first shank only; the model is told which processing window keeps the row and which verification window reads it (derived in the harness from the row)',
     'LF content is taken from an uninterrupted reference run of the same code (its correctness is C12); AP content, sizes of partially '
     'written files and the shank columns are derived independently from the original and the shank map',
+    'init_params(nshank=[...]) with a proper subset of the shanks ("you would only want to override this for testing purposes"): the property\'s '
+    'demand is unchanged (the original may only disappear after a verification that establishes it can be rebuilt from the outputs); on the '
+    'unchanged code post_check then always fails (check_NP24 compares the whole original with a buffer that lacks the other shanks; AssertionError '
+    'in the first window, original kept) and without post_check the run returns 1 with the selected folders complete: the model follows this '
+    '(Cfg.partialSel, n = number of selected shanks, state tokens for the selected folders in the order given; files in any other folder would '
+    'show as unexpected), the oracle accepts the AssertionError there and never accepts a removed original that cannot be rebuilt from ALL shanks; '
+    'first / forced-run completion is demanded for the selected folders only when post_check is off',
+    'effect sequences: the environment can be made to raise only at the hooks (call boundaries of the converter\'s own methods and of '
+    'spikeglx.write_meta_data / Reader.read / Reader.compress_file); the boundaries of the model\'s effect list that have no hook (before '
+    '_prepare_files_*, between the last verification read and check_completed = True, between the unlink of a stale .cbin and the entry of '
+    'compress_file, inside _prepare_files_NP24 between two shank folders) are covered by the theorems only; the replacement of an NP2.1 original '
+    '(.cbin published, then .bin unlinked) is ONE effect of the model (the intermediate disk with both files is not a state of the model), so no '
+    'C hook is counted for it; recordings with a trailing partial frame are not used for the effect-sequence cases (mtscomp raises before the '
+    '.cbin_tmp that hook c presupposes)',
     'a run without overwrite when only some of the expected shank folders exist creates the missing ones (empty files) and returns 0; no '
     'history over the listed interruption points reaches such a state (all folders are created before the first window); rerun_noop is '
     'stated for "all expected folders exist"',
@@ -64,17 +99,34 @@ ASSUMPTIONS = [
 TRUSTED = [
     'the abstraction of the real directory tree to the model state (this module, `abstract`) and the fault injectors (`faults`)',
     'mtscomp (used directly to decode every .cbin for comparison) and hashlib',
+    'translator tie: harness/pyfn2lean.py and its per-item assumptions (each boolean attribute test of the source is read through an '
+    'assumed truth value; Tie/C04.lean selects the specialisation that belongs to a flag combination)',
 ]
 LEVEL_TEXT = ('Lean 4 theorems over the converter history state machine Converter.run, for every history, every option triple, every '
               'interruption point and index, every shank count >= 1 and window configuration: the original stays recoverable (invariant by '
               'induction over histories), it is deleted only by an NP2.4 run whose bit-exact verification passed, an interrupted run keeps it, '
               'a run without overwrite on existing output is the identity and returns 0, every run leaves output behind, an uninterrupted '
-              'first or forced run from ANY earlier state ends complete, NP1 / already-split inputs are untouched; the model is tied to '
-              'NP2Converter by an exact differential run over generated histories with fault injection on the real code')
-LEVEL_NOTE = ('proved about the model; the tie to the code is the token-exact correspondence run (status, SHA-1 of the original, set / '
-              'sizes / validity of every file). Trusted: Lean kernel, the abstraction function and fault injectors of harness/props/c04.py, '
-              'mtscomp/zlib losslessness, exception-level (not syscall-level) interruption')
-TECHNIQUE = 'Lean 4 state-machine model + invariant proofs by induction over histories; exact differential correspondence with fault injection'
+              'first or forced run from ANY earlier state ends complete, NP1 / already-split inputs are untouched.  Each run is also a LIST OF '
+              'ATOMIC EFFECTS with a sequential semantics (Converter.effectsObj / applyEffs), proved equal to the state machine (uninterrupted '
+              'run = whole list, status = the total decision table statusObj; every named interruption = a prefix); over ALL prefixes: the '
+              'original stays recoverable, it is removed only by the last effect of a list that contains this run\'s check_completed = True, and '
+              'a forced re-run after any strict prefix ends complete; with a partial shank selection (init_params(nshank=subset)) no history ever removes the original.  Ties: (1) exact differential run over generated histories with fault '
+              'injection on the real code, incl. hook traces and interruptions at any hook; (2) translator tie: the step order the effect '
+              'list expands (process dispatch, _process_NP24 / _process_NP21 under every flag combination, delete_NP24 guard, the window '
+              'generator) is re-translated from the source text on every run and proved equal to the model\'s steps24 / steps21 / dispatch / '
+              'deleteGuard')
+LEVEL_NOTE = ('proved about the model; tie (1) is the token-exact correspondence run (status, SHA-1 of the original, set / sizes / validity of '
+              'every file, object flags, hook order), tie (2) the translator tie IblVerif.Tie.C04 (8 theorems, regenerated per run): call '
+              'order and guards of process / _process_NP24 / _process_NP21 / delete_NP24 for all flag combinations and window '
+              'configurations.  Only compared numerically (not translated: loops over self.shank_info / arrays are outside the translator\'s '
+              'subset): the bodies of check_NP24 (window loop, per-shank reads, check_completed = True), compress_NP24 / compress_NP21 '
+              '(per-stream order unlink stale -> compress_file -> unlink .bin), _prepare_files_NP24 / _NP21 (existence tests) and the '
+              'status 1 at the end of the pipelines; their effect order inside the model (Converter.expand24 / expand21) is tied by the hook '
+              'traces and prefix states of the correspondence run.  Trusted: Lean kernel, the abstraction function and fault injectors of '
+              'harness/props/c04.py, mtscomp/zlib losslessness, exception-level (not syscall-level) interruption at the hooks listed in RULE')
+TECHNIQUE = ('Lean 4 state-machine model + invariant proofs by induction over histories; sequential effect-list semantics proved equal to it '
+             'and prefix-closed safety theorems; translator tie of the call-order / guard skeleton (model regenerated from the source on every '
+             'run); exact differential correspondence with fault injection (named points and any-hook interruption)')
 
 REPO = Path(os.environ.get('IBL_REPO', '/repo'))
 FX = REPO / 'src' / 'tests' / 'fixtures' / 'np2split'
@@ -117,11 +169,16 @@ class Rec:
     """One tiny recording + everything expected of its conversion."""
     _cache = {}
 
-    def __init__(self, kind, n, ns, w, ov, hdr=None, trail=0, seed=0):
+    def __init__(self, kind, n, ns, w, ov, hdr=None, trail=0, seed=0, sel=None):
         """ns: complete frames on disk; hdr: frames the .meta announces (fileSizeBytes / fileTimeSecs; default ns);
-        trail: bytes of a partial frame after the last complete one (original .bin only)"""
+        trail: bytes of a partial frame after the last complete one (original .bin only); sel: the shank ids handed to
+        init_params(nshank=[…]) (None: the argument is not given; NP2.4 only)"""
         hdr = ns if hdr is None else hdr
         self.kind, self.n, self.ns, self.w, self.ov, self.hdr, self.trail = kind, n, ns, w, ov, hdr, trail
+        self.sel = None if (sel is None or kind != 'np24') else tuple(int(i) for i in sel)
+        self.shanks = list(self.sel) if self.sel is not None else list(range(n))      # the shanks a run converts, in order
+        self.nsel = len(self.shanks)
+        self.partial = kind == 'np24' and self.nsel < n
         folder = {'np24': 'NP24_meta', 'np21': 'NP21_meta', 'np1': 'NP1_meta'}[kind]
         text = (FX / folder / f'{STEM}.ap.meta').read_text()
         if kind == 'np24':   # fold the four shanks of the fixture onto n shanks
@@ -148,15 +205,15 @@ class Rec:
         self._ref = None
 
     @classmethod
-    def get(cls, kind, n, ns, w, ov, hdr=None, trail=0):
-        key = (kind, n, ns, w, ov, ns if hdr is None else hdr, trail)
+    def get(cls, kind, n, ns, w, ov, hdr=None, trail=0, sel=None):
+        key = (kind, n, ns, w, ov, ns if hdr is None else hdr, trail, None if sel is None else tuple(sel))
         if key not in cls._cache:
-            cls._cache[key] = cls(kind, n, ns, w, ov, hdr, trail)
+            cls._cache[key] = cls(kind, n, ns, w, ov, hdr, trail, sel=sel)
         return cls._cache[key]
 
     @classmethod
     def of(cls, cfg):
-        return cls.get(cfg['kind'], cfg['n'], cfg['ns'], cfg['w'], cfg['ov'], cfg.get('hdr'), cfg.get('trail', 0))
+        return cls.get(cfg['kind'], cfg['n'], cfg['ns'], cfg['w'], cfg['ov'], cfg.get('hdr'), cfg.get('trail', 0), cfg.get('sel'))
 
     # sizes of partially written files (own derivation: window k keeps [first + ov/2, first + w - ov/2), first window from 0)
     def nwin(self):
@@ -219,7 +276,7 @@ class Rec:
                 call = dict(pc=0, cp=0, dl=0, ow=0, sh=0, int=None, cor=None, form=None)
                 res = do_call(root, self, call)
                 ref = {'result': res, 'lf': {}, 'meta': {}}
-                for i, d in enumerate(self.out_dirs(root)):
+                for i, d in zip(self.shanks if self.kind == 'np24' else [0], self.out_dirs(root)):
                     for et in ('ap', 'lf'):
                         p = d / f'{STEM}.{et}.bin'
                         if et == 'lf' and p.exists():
@@ -234,7 +291,7 @@ class Rec:
 
     def out_dirs(self, root):
         if self.kind == 'np24':
-            return [root / ('probe00' + chr(97 + i)) for i in range(self.n)]
+            return [root / ('probe00' + chr(97 + i)) for i in self.shanks]
         return [root / 'probe00']
 
 
@@ -243,7 +300,12 @@ class Rec:
 # ---------------------------------------------------------------------------------------------
 @contextlib.contextmanager
 def faults(point, corrupt):
-    """point: None | ('s', j) | ('m', j) | ('v', k) | ('c', j) | ('d',); corrupt: None | (shank index, row)"""
+    """point: None | ('s', j) | ('m', j) | ('v', k) | ('c', j) | ('d',) | ('g', k); corrupt: None | (shank index, row).
+    ('g', k): the environment raises at the k-th hook the run passes, whatever its kind.  Hooks, in the model's letters
+    (Converter.Eff.hook): s = a _split2shanks call, m = a write_meta_data call, v = a Reader.read inside check_NP24, b = entry of
+    a Reader.compress_file call, c = inside it once .cbin_tmp exists (the harness creates the file, as for ('c', j)), C = after it
+    returned and before the caller unlinks the .bin (not for the NP2.1 original, whose replacement is one effect of the model),
+    d = the delete_NP24 call.  The hooks a call passes are recorded in cnt['trace'] in any mode."""
     import mtscomp
     import neuropixel
     import spikeglx
@@ -251,14 +313,20 @@ def faults(point, corrupt):
     # external dependency, not the code under test: one compression thread instead of a pool of cpu_count() threads per file
     o_config = mtscomp.DEFAULT_CONFIG
     mtscomp.DEFAULT_CONFIG = [(k, 1 if k == 'n_threads' else v) for k, v in o_config]
-    cnt = {'s': 0, 'm': 0, 'v': 0, 'c': 0, 'aprows': 0, 'in_check': False}
+    cnt = {'s': 0, 'm': 0, 'v': 0, 'c': 0, 'aprows': 0, 'in_check': False, 'trace': []}
+
+    def hit(kind):
+        """record the hook; True when the environment raises here (global hook index)"""
+        k = len(cnt['trace'])
+        cnt['trace'].append(kind)
+        return point == ('g', k)
     o_split, o_check, o_delete = C._split2shanks, C.check_NP24, C.delete_NP24
     o_wmd, o_read, o_comp = spikeglx.write_meta_data, spikeglx.Reader.read, spikeglx.Reader.compress_file
 
     def split2shanks(self, chunk, etype='ap'):
         j = cnt['s']
         cnt['s'] += 1
-        if point == ('s', j):
+        if hit('s') or point == ('s', j):
             raise Injected()
         if corrupt is not None and etype == 'ap' and self.np_version == 'NP2.4':
             r0 = cnt['aprows']          # the ap chunks handed over are the kept rows, in order: row index = sample index
@@ -272,7 +340,7 @@ def faults(point, corrupt):
     def write_meta_data(md, md_file):
         j = cnt['m']
         cnt['m'] += 1
-        if point == ('m', j):
+        if hit('m') or point == ('m', j):
             raise Injected()
         return o_wmd(md, md_file)
 
@@ -292,20 +360,27 @@ def faults(point, corrupt):
         if cnt['in_check']:
             k = cnt['v']
             cnt['v'] += 1
-            if point == ('v', k):
+            if hit('v') or point == ('v', k):
                 raise Injected()
         return o_read(self, *a, **kw)
 
     def compress_file(self, *a, **kw):
         j = cnt['c']
         cnt['c'] += 1
-        if point == ('c', j):
+        fb = Path(self.file_bin)
+        is_orig = fb.parent.name == 'probe00' and '.ap.' in fb.name
+        if hit('b'):
+            raise Injected()
+        if hit('c') or point == ('c', j):
             self.file_bin.with_suffix('.cbin_tmp').write_bytes(b'interrupted')
             raise Injected()
-        return o_comp(self, *a, **kw)
+        r = o_comp(self, *a, **kw)
+        if not is_orig and hit('C'):
+            raise Injected()
+        return r
 
     def delete_NP24(self):
-        if point == ('d',):
+        if hit('d') or point == ('d',):
             raise Injected()
         return o_delete(self)
 
@@ -319,8 +394,9 @@ def faults(point, corrupt):
         mtscomp.DEFAULT_CONFIG = o_config
 
 
-def target_file(root, call):
-    d = root / ('probe00a' if call['sh'] else 'probe00')
+def target_file(root, call, rec=None):
+    first = 0 if rec is None else rec.shanks[0]
+    d = root / (('probe00' + chr(97 + first)) if call['sh'] else 'probe00')
     f = d / f'{STEM}.ap.bin'
     if not f.exists() and f.with_suffix('.cbin').exists():
         f = f.with_suffix('.cbin')
@@ -337,7 +413,8 @@ def do_call(root, rec, call, holder=None):
     prev = logging.root.manager.disable
     logging.disable(logging.CRITICAL)
     try:
-        with contextlib.redirect_stderr(io.StringIO()), faults(call['int'], call['cor']):
+        with contextlib.redirect_stderr(io.StringIO()), faults(call['int'], call['cor']) as cnt:
+            holder['trace'] = cnt['trace']
             if call.get('ru'):
                 conv = holder.get('conv')
                 if conv is None:
@@ -349,7 +426,7 @@ def do_call(root, rec, call, holder=None):
                     del old
                     gc.collect()
                 form = call.get('form') or DEFAULT_FORM
-                f = target_file(root, call)
+                f = target_file(root, call, rec)
                 f = str(f) if form[0] == 's' else f
                 try:
                     if form[1] == 'p':      # positional, in the order of the documented signature
@@ -360,7 +437,12 @@ def do_call(root, rec, call, holder=None):
                 except FileNotFoundError:
                     return 'raise:noOriginal'
                 w = WINDOW_FORMS[form[3]](rec.w)
-                if form[2] == 'p':          # init_params(nsamples, nwindow, extra, nshank)
+                if rec.sel is not None:     # a shank selection ("for testing purposes"): the shanks to convert
+                    if form[2] == 'p':      # init_params(nsamples, nwindow, extra, nshank)
+                        conv.init_params(None, w, None, list(rec.sel))
+                    else:
+                        conv.init_params(nwindow=w, nshank=list(rec.sel))
+                elif form[2] == 'p':
                     conv.init_params(None, w)
                 else:
                     conv.init_params(nwindow=w)
@@ -494,7 +576,7 @@ def abstract(root, rec):
     if not ometa.exists() or ometa.read_text() != rec.meta_text:
         o += '+metaALTERED'
     toks = []
-    for i in range(rec.n):
+    for i in (rec.shanks if rec.kind == 'np24' else range(rec.n)):      # the folders of the shanks the run converts, in order
         if rec.kind != 'np24':
             toks.append('-')
             continue
@@ -614,7 +696,7 @@ def recoverable(root, rec):
 
 def complete_valid(root, rec, compress, check_lf=True):
     """None when the per-shank output is complete and valid, else why not."""
-    for i, d in enumerate(rec.out_dirs(root)):
+    for i, d in zip(rec.shanks if rec.kind == 'np24' else [0], rec.out_dirs(root)):
         for et in ('ap', 'lf'):
             if rec.kind != 'np24' and et == 'ap':
                 continue
@@ -675,7 +757,7 @@ def orig_present(root):
 
 
 def effective_fault(rec, call):
-    return call['int'] is not None or (call['cor'] is not None and rec.kind == 'np24' and call['cor'][0] < rec.n
+    return call['int'] is not None or (call['cor'] is not None and rec.kind == 'np24' and call['cor'][0] in rec.shanks
                                        and call['cor'][1] < rec.ns)
 
 
@@ -723,6 +805,10 @@ def oracle_step(root, rec, call, pre, res):
         return None
     if rec.kind == 'np21' and rec.trail and call['cp'] and pre['orig_bin'] and res == 'raise:valueError':
         return None     # known finding np21-trailing-bytes-compress: mtscomp refuses an original that ends with a partial frame
+    if rec.partial and call['pc'] and res == 'raise:assertion':
+        # a proper subset of the shanks (init_params(nshank=[…]), "for testing purposes") with post_check: the verification compares
+        # the whole original with a buffer that lacks the other shanks and cannot pass; the original being kept was checked above
+        return None
     if not effective_fault(rec, call) and (call['ow'] or pre['no_output']):
         if res != 'ret1':
             return f'{"forced re-run" if call["ow"] else "first run"} without any fault ended with {res}, expected status 1'
@@ -758,7 +844,8 @@ def lean_call_token(rec, c):
     if c['cor'] is None:
         return tok
     sh, row = c['cor']
-    return tok.rsplit(':', 1)[0] + f':{sh}.{rec.kept_window(row)}.{row // rec.w}'
+    pos = rec.shanks.index(sh) if sh in rec.shanks else rec.nsel       # the model counts the converted shanks
+    return tok.rsplit(':', 1)[0] + f':{pos}.{rec.kept_window(row)}.{row // rec.w}'
 
 
 def parse_call(tok):
@@ -775,7 +862,10 @@ def cfg_tokens(cfg):
         ns += f"h{cfg['hdr']}"
     if cfg.get('trail'):
         ns += 't'
-    return f"{cfg['kind']} {cfg['n']} {ns} {cfg['w']} {cfg['ov']} {cfg['orig']}"
+    n = str(cfg['n'])
+    if cfg.get('sel') is not None and cfg['kind'] == 'np24':     # the shanks converted; p: a proper subset of the probe's shanks
+        n = str(len(cfg['sel'])) + ('p' if len(cfg['sel']) < cfg['n'] else '')
+    return f"{cfg['kind']} {n} {ns} {cfg['w']} {cfg['ov']} {cfg['orig']}"
 
 
 def target_complete(state_tok):
@@ -799,7 +889,7 @@ def pick_index(rng, tot):
 
 
 def gen_call(rng, rec, state_tok, holder=None):
-    n, nw = rec.n, rec.nwin()
+    n, nw = rec.nsel, rec.nwin()
     nver = -(-rec.ns // rec.w)
     c = dict(pc=int(rng.integers(0, 2)), cp=int(rng.integers(0, 2)), dl=int(rng.integers(0, 2)), ow=int(rng.integers(0, 2)),
              sh=0, int=None, cor=None)
@@ -829,7 +919,8 @@ def gen_call(rng, rec, state_tok, holder=None):
             kv = 0 if pos == 'first' else (nv - 1 if pos == 'last' else int(rng.integers(0, nv)))
             lo, hi = kv * rec.w, min((kv + 1) * rec.w, rec.ns)
             row = [lo, hi - 1, int(rng.integers(lo, hi))][int(rng.integers(0, 3))]
-            c['cor'] = (int(rng.integers(0, n + 1)), row)      # shank n itself: no such shank, ineffective
+            j = int(rng.integers(0, n + 1))
+            c['cor'] = (rec.shanks[j] if j < n else rec.n, row)      # shank id rec.n: no such shank, ineffective
             if rng.random() < 0.6:
                 c['pc'] = 1
         if target_complete(state_tok) and rng.random() < 0.12:
@@ -843,7 +934,7 @@ def gen_call(rng, rec, state_tok, holder=None):
     return c
 
 
-def run_history(rec, orig, calls=None, rng=None, length=0, oracle=True):
+def run_history(rec, orig, calls=None, rng=None, length=0, oracle=True, traces=None):
     """Execute a history on the real code.  Either `calls` (list of call dicts) or (`rng`, `length`): generated on line.
     Returns (calls, [result@state#object tokens], [oracle verdicts]).  A reused call carries the options of its object."""
     root = Path(tempfile.mkdtemp(prefix='c04_'))
@@ -869,6 +960,8 @@ def run_history(rec, orig, calls=None, rng=None, length=0, oracle=True):
             if pre is not None:
                 pre['target_complete'] = target_complete(state)
             res = do_call(root, rec, call, holder)
+            if traces is not None:
+                traces.append(''.join(holder.get('trace') or []))
             if not call.get('ru'):
                 holder['opts'] = dict(pc=call['pc'], cp=call['cp'], dl=call['dl'], sh=call['sh'])
             state = abstract(root, rec)
@@ -903,6 +996,14 @@ def gen_cfg(rng, ov):
         cfg['hdr'] = ns + [1, 300, ns][int(rng.integers(0, 3))]
     if cfg['orig'] == 'bin' and rng.random() < 0.12:     # trailing partial frame
         cfg['trail'] = [1, 77, 769][int(rng.integers(0, 3))]
+    if kind == 'np24' and n >= 2 and rng.random() < 0.14:     # init_params(nshank=[…]): one shank, a non-prefix pair, or all of them
+        r = rng.random()
+        if r < 0.45:
+            cfg['sel'] = [int(rng.integers(0, n))]
+        elif r < 0.8:
+            cfg['sel'] = sorted(int(i) for i in rng.choice(n, size=int(rng.integers(1, n)), replace=False))
+        else:
+            cfg['sel'] = list(range(n))
     return cfg
 
 
@@ -916,6 +1017,8 @@ def _tags(cfg, calls, toks):
                              else 'announces-more-frames'))
     if cfg.get('trail'):
         tags.append('trailing-partial-frame')
+    if cfg.get('sel') is not None:
+        tags.append('nshank=' + ('all' if len(cfg['sel']) == cfg['n'] else 'proper-subset'))
     prev_state = None
     prev_res = None
     for c, t in zip(calls, toks):
@@ -939,7 +1042,7 @@ def _tags(cfg, calls, toks):
             nv = -(-cfg['ns'] // cfg['w'])
             kv = c['cor'][1] // cfg['w']
             tags.append('altered-window=' + ('only' if nv == 1 else 'first' if kv == 0 else 'last' if kv == nv - 1 else 'middle'))
-            if cfg['kind'] == 'np24' and c['pc'] and c['cor'][0] < cfg['n'] and res in ('raise:assertion', 'ret1'):
+            if cfg['kind'] == 'np24' and c['pc'] and c['cor'][0] < cfg['n'] and not cfg.get('sel') and res in ('raise:assertion', 'ret1'):
                 tags.append(f'altered+post_check->{res}')
         if c['sh']:
             tags.append('already-split-call')
@@ -983,27 +1086,43 @@ def correspondence(ctx):
     rng = ctx.rng
     hist = []     # (cfg, calls, toks, verdicts)
     t_start = time.time()
-    nh = ctx.n(100, 600)
+    # depth: quick / escalated quick (the translator tie broke: every staple, the same-object sequences, deeper effect-sequence
+    # cases and three times the generated histories, but not the exhaustive single-call sweep) / thorough
+    esc = ctx.tier == 'quick' and not ctx.quick
+    full = not ctx.quick and not esc
+
+    def depth(q, e, t):
+        return q if ctx.quick else (e if esc else t)
+    nh = depth(100, 300, 600)
     maxlen = ctx.n(4, 5)
     # a fixed set of staple histories first (the suite's own history and the ones the property names)
     staples = staple_histories(ov)
-    if ctx.quick:       # the core staples every time, a seeded half of the others (thorough: all)
+    if ctx.quick:       # the core staples every time, a seeded half of the others (escalated / thorough: all)
         keep = ctx.subrng(404).random(len(staples)) < 0.4
         staples = [s for s, k in zip(staples, keep) if k or _is_core(*s)]
     for cfg, cl in staples:
         rec = Rec.of(cfg)
         calls, toks, ver = run_history(rec, cfg['orig'], calls=[parse_call(c) for c in cl])
         hist.append((cfg, calls, toks, ver))
-    if not ctx.quick:
+    if esc:
+        for cfg, cl in _same_object_sequences(ov):
+            rec = Rec.of(cfg)
+            calls, toks, ver = run_history(rec, cfg['orig'], calls=[parse_call(c) for c in cl])
+            hist.append((cfg, calls, toks, ver))
+        ctx.note('escalated (translator tie broken): every staple history and every same-object sequence (8 option triples x rerun / '
+                 'forced / interrupted + retried) was run, effect-sequence cases and generated histories at three times the quick depth')
+    if full:
         for cfg, cl in exhaustive_single_calls(ov):
             rec = Rec.of(cfg)
             calls, toks, ver = run_history(rec, cfg['orig'], calls=[parse_call(c) for c in cl])
             hist.append((cfg, calls, toks, ver))
         ctx.note('thorough: every single call (8 option triples x overwrite x every interruption point and index, plus an '
-                 'unfaithful split) was run from the fresh state and from the completed compressed / uncompressed state of one '
+                 'unfaithful split) was run from the fresh and from the completed compressed / uncompressed state of one '
                  'configuration per kind')
+    # runs as effect sequences: hook trace of an uninterrupted call, and interruptions at ANY hook (global index)
+    pfx = prefix_cases(ctx, ov, time.time() + depth(9, 45, 150), depth(7, 30, 90), depth(3, 5, 6), full)
     done = 0
-    t_end = max(t_start + ctx.n(62, 420), time.time() + ctx.n(25, 200))
+    t_end = max(t_start + depth(62, 62, 420), time.time() + depth(22, 120, 200))
     while done < nh and time.time() < t_end:
         cfg = gen_cfg(rng, ov)
         rec = Rec.of(cfg)
@@ -1015,8 +1134,13 @@ def correspondence(ctx):
     lines = ['hist ' + cfg_tokens(cfg) + ' ' +
              ' '.join(lean_call_token(Rec.of(cfg), c) for c in calls)
              for cfg, calls, _, _ in hist]
-    answers = ctx.lean(lines)
+    answers = ctx.lean(lines + [x['line'] for x in pfx])
     nviol = 0
+    for x, ans in zip(pfx, answers[len(lines):]):
+        ctx.compare(x['op'], x['desc'], x['impl'], ans[3:] if ans.startswith('ok ') else ans, nontrivial=x['nontrivial'], tags=x['tags'])
+        if x['verdict']:
+            nviol += 1
+            ctx.mismatch('oracle', x['desc'], x['verdict'], 'C04 holds')
     for (cfg, calls, toks, ver), ans in zip(hist, answers):
         mt = ans.split()[1:] if ans.startswith('ok') else [ans] * len(toks)
         tags = _tags(cfg, calls, toks)
@@ -1040,6 +1164,93 @@ def correspondence(ctx):
         ctx.compare('counts', d, a, b, nontrivial=True, tags=('counts',))
 
 
+PRIORS = [[], [], ['000000:-:-'], ['010000:-:-'], ['110000:s1:-'], ['010000:c1:-'], ['110000:m1:-'], ['010000:-:-', '000100:s2:-'],
+          ['100000:v1:-']]
+
+
+def gen_prefix_scenario(rng, ov, i):
+    """(cfg, prior call tokens, last call without interruption): the core scenarios first, then generated ones"""
+    core = [(dict(kind='np24', n=2, ns=1500, w=1200, ov=ov, orig='bin'), [], '111000:-:-'),
+            (dict(kind='np21', n=1, ns=1500, w=1200, ov=ov, orig='bin'), [], '010000:-:-'),
+            (dict(kind='np24', n=2, ns=1500, w=1200, ov=ov, orig='bin'), ['010000:-:-'], '111100:-:-')]
+    if i < len(core):
+        cfg, prior, last = core[i]
+        return cfg, prior, parse_call(last)
+    while True:
+        cfg = gen_cfg(rng, ov)
+        if not cfg.get('trail') and cfg['kind'] != 'np1':
+            break
+    rec = Rec.of(cfg)
+    prior = list(PRIORS[int(rng.integers(0, len(PRIORS)))])
+    last = dict(pc=int(rng.integers(0, 2)), cp=int(rng.random() < 0.7), dl=int(rng.integers(0, 2)),
+                ow=int(rng.random() < (0.75 if prior else 0.3)), sh=0, ru=0, int=None, cor=None, form=None)
+    if cfg['kind'] == 'np24' and rng.random() < 0.2:
+        last['cor'] = (rec.shanks[int(rng.integers(0, rec.nsel))], int(rng.integers(0, rec.ns)))
+    if prior and rng.random() < 0.3:
+        last['ru'] = 1      # the same object once more: run_history gives it the options of its object
+    return cfg, prior, last
+
+
+def pick_hooks(rng, trace, how_many):
+    """boundary-biased global hook indices: first / last / one past the end, the first hook of every kind, the hooks inside and
+    after compress_file (b, c, C: the boundaries the named interruption points do not have), random ones"""
+    T = len(trace)
+    if how_many is None:
+        return list(range(T + 1))
+    cand = [0, T - 1, T]
+    cand += [trace.index(k) for k in 'smvbcCd' if k in trace]
+    special = [i for i, k in enumerate(trace) if k in 'bC']
+    out = []
+    while len(out) < how_many and (cand or special):
+        r = rng.random()
+        if special and r < 0.45:
+            k = special.pop(int(rng.integers(0, len(special))))
+        elif cand and r < 0.8:
+            k = cand.pop(int(rng.integers(0, len(cand))))
+        else:
+            k = int(rng.integers(0, T + 1))
+        if 0 <= k <= T and k not in out:
+            out.append(k)
+    return out
+
+
+def prefix_cases(ctx, ov, t_end, nsc, nk, full):
+    """The last call of a short history as an effect sequence (Model/ConverterSteps.lean).  Returns the cases (model line,
+    canonical token of the real code, oracle verdict) for (1) the hooks an uninterrupted call passes, in order, with its outcome
+    and (2) the state left when the environment raises at the k-th hook, for boundary-biased k."""
+    rng = ctx.subrng(4404)
+    out = []
+    for i in range(nsc):
+        if time.time() > t_end:
+            break
+        cfg, prior, last = gen_prefix_scenario(rng, ov, i)
+        rec = Rec.of(cfg)
+        calls_in = [parse_call(c) for c in prior] + [dict(last)]
+        traces = []
+        calls, toks, ver = run_history(rec, cfg['orig'], calls=calls_in, traces=traces)
+        trace = traces[-1]
+        head = cfg_tokens(cfg) + ' ' + ' '.join(lean_call_token(rec, c) for c in calls[:-1])
+        desc = {'cfg': cfg, 'calls': [call_token(c) for c in calls]}
+        base_tags = ('effect-sequence', cfg['kind'], 'prior=' + ('none' if not prior else '+'.join(p.split(':')[1] for p in prior)),
+                     'same-object' if calls[-1].get('ru') else 'fresh-object', 'res=' + toks[-1].split('@')[0].split('(')[0])
+        out.append({'op': 'trace', 'line': 'trace ' + head + ' ' + lean_call_token(rec, calls[-1]), 'desc': desc,
+                    'impl': (trace or '-') + ' ' + toks[-1], 'nontrivial': bool(trace), 'verdict': next((v for v in ver if v), None),
+                    'tags': base_tags + ('hooks=%d' % len(trace),)})
+        exhaustive = full and i < 6
+        for k in pick_hooks(rng, trace, None if exhaustive else nk):
+            if time.time() > t_end:
+                break
+            cin = calls_in[:-1] + [dict(calls[-1], int=('g', k))]
+            cs, tk, vr = run_history(rec, cfg['orig'], calls=cin)
+            hook = trace[k] if k < len(trace) else 'past-end'
+            out.append({'op': 'prefix', 'line': 'prefix ' + head + ' ' + lean_call_token(rec, cs[-1]),
+                        'desc': {'cfg': cfg, 'calls': [call_token(c) for c in cs]}, 'impl': tk[-1], 'nontrivial': k < len(trace),
+                        'verdict': next((v for v in vr if v), None), 'tags': base_tags + ('hook=' + hook,)})
+    ctx.note(f'{sum(1 for x in out if x["op"] == "trace")} calls compared as effect sequences (hook trace + outcome), '
+             f'{sum(1 for x in out if x["op"] == "prefix")} interruptions at a global hook index')
+    return out
+
+
 def _is_core(cfg, cl):
     """one staple per clause of the property runs in every quick tier"""
     short_hdr = cfg.get('hdr') is not None and cfg['hdr'] < cfg['ns']
@@ -1047,7 +1258,8 @@ def _is_core(cfg, cl):
             or cl == ['11010:-:-', '11000:-:-'] or cl[:1] == ['11100:-:0@0'] or cl[:1] == ['11100:-:1@1199']
             or (short_hdr and cfg['hdr'] == 1200 and not cfg.get('trail') and cfg['orig'] == 'bin')
             or (cfg.get('trail') == 77 and cfg['kind'] == 'np21')
-            or cl[0].endswith(':sppip') or cl == ['11100:s1:-', '11100:-:-', '11110:-:-'])
+            or cl[0].endswith(':sppip') or cl == ['11100:s1:-', '11100:-:-', '11110:-:-'] or cfg['ns'] > 30000
+            or (cfg.get('sel') in ([2], [1, 3]) and cl[0].startswith('101')) or (cfg.get('sel') == [0] and cl[0].startswith('111')))
 
 
 def staple_histories(ov):
@@ -1099,6 +1311,17 @@ def staple_histories(ov):
     for form in ('sppip', 'PkkIk', 'Pkpjk', 'skkfp', 'PpkFk', 'Pkkxk'):
         out.append((dict(kind='np24', n=2, ns=1500, w=1200, ov=ov, orig='bin'), [f'110000:-:-:{form}', f'110001:-:-:{form}', f'111100:-:-:{form}']))
         out.append((dict(kind='np21', n=1, ns=1500, w=1200, ov=ov, orig='bin'), [f'010000:-:-:{form}', f'010100:-:-:{form}']))
+    # a partial shank selection init_params(nshank=[0] / [2] / [1, 3]) under every option triple: the original must survive (with
+    # post_check the verification fails; without it check_completed stays False), also when the same object is forced again
+    b4s = dict(kind='np24', n=4, ns=1500, w=1200, ov=ov, orig='bin')
+    for sel in ([0], [2], [1, 3]):
+        for bits in range(8):
+            b = f'{bits >> 2 & 1}{bits >> 1 & 1}{bits & 1}'
+            out.append((dict(b4s, sel=sel), [f'{b}000:-:-'] + ([f'{b}101:-:-'] if bits in (5, 7) else [])))
+    out.append((dict(b4s, sel=[0, 1, 2, 3]), ['101000:-:-']))
+    # scale: a recording longer than one second (fs_ap = 30000 samples, half the default window): an altered sample in the first
+    # second must still stop the verified delete
+    out.append((dict(kind='np24', n=2, ns=30600, w=30000, ov=ov, orig='bin'), ['101000:-:1@0']))
     # known finding partial-folders-rerun: only some expected folders exist (model and code agree on what happens)
     out.append((dict(kind='np24', n=2, ns=1500, w=1200, ov=ov, orig='bin@1'), ['11000:-:-', '11000:-:-', '11010:-:-']))
     out.append((dict(kind='np24', n=3, ns=1500, w=1200, ov=ov, orig='cbin@2'), ['00100:s1:-', '11110:-:-']))
@@ -1106,7 +1329,7 @@ def staple_histories(ov):
 
 
 def all_points(rec):
-    n, nw = rec.n, rec.nwin()
+    n, nw = rec.nsel, rec.nwin()
     nver = -(-rec.ns // rec.w)
     if rec.kind == 'np24':
         tot = {'s': 2 * nw, 'm': 2 * n, 'v': nver * (1 + n), 'c': 2 * n}
@@ -1178,7 +1401,7 @@ def _shrink(cfg, call_toks):
                 break
     for change in (dict(hdr=None), dict(trail=0), dict(ns=1500, w=1200), dict(n=2), dict(n=1), dict(orig='bin')):
         small = dict(cfg, **change)
-        if cfg['kind'] != 'np24' and 'n' in change:
+        if (cfg['kind'] != 'np24' or cfg.get('sel') is not None) and 'n' in change:
             continue
         if 'n' in change and (change['n'] >= cfg['n'] or any(parse_call(c)['cor'] is not None for c in call_toks)):
             continue
@@ -1220,6 +1443,15 @@ def _header_variants(ov):
 
 def _systematic(ov):
     """short histories around every clause of the property"""
+    for b in ('101000', '111000'):      # longer than one second: altered sample in the first / last second, with verification and delete
+        for row in (0, 30599):
+            yield dict(kind='np24', n=2, ns=30600, w=30000, ov=ov, orig='bin'), [f'{b}:-:1@{row}']
+    for sel in ([0], [2], [1, 3], [0, 1, 2]):        # partial shank selections under every option triple, forced again on the same object
+        cfgs = dict(kind='np24', n=4, ns=1500, w=1200, ov=ov, orig='bin', sel=sel)
+        for bits in (5, 7, 4, 6, 1, 3, 0, 2):
+            b = f'{bits >> 2 & 1}{bits >> 1 & 1}{bits & 1}'
+            yield cfgs, [f'{b}000:-:-']
+            yield cfgs, [f'{b}000:-:-', f'{b}101:-:-']
     yield from _header_variants(ov)
     yield from _same_object_sequences(ov)
     firsts = [[], ['11000:-:-'], ['00000:-:-'], ['11000:s1:-'], ['11000:m1:-'], ['11000:c0:-'], ['11000:c1:-'], ['01000:-:0@0']]
@@ -1281,14 +1513,14 @@ def search(ctx, reasons):
         return None
     cfg, toks, why, states = best
     return {'input': {'cfg': cfg, 'calls': toks,
-                      'legend': 'call = <post_check><compress><delete_original><overwrite><on shank file><same object again>:<interruption s/m/v/c<j> or d>:'
-                                '<shank>@<row of the AP sample altered before it is written>[:<form: path P/s, ctor k/p, init_params k/p, window i/I/j/f/F/x, process k/p>]; cfg hdr = frames announced by the .meta, trail = bytes of a trailing partial frame'},
+                      'legend': 'call = <post_check><compress><delete_original><overwrite><on shank file><same object again>:<interruption s/m/v/c<j> or d, or g<k> = the k-th hook the run passes whatever its kind (s split, m metadata, v verification read, b/c/C entry of / inside / after compress_file, d delete)>:'
+                                '<shank>@<row of the AP sample altered before it is written>[:<form: path P/s, ctor k/p, init_params k/p, window i/I/j/f/F/x, process k/p>]; cfg hdr = frames announced by the .meta, trail = bytes of a trailing partial frame, sel = the shank ids handed to init_params(nshank=[...]) (absent: argument not given)'},
             'observed': {'violation': why, 'results_and_disk_after_each_call': states},
             'expected': 'C04: original recoverable byte for byte after every call; removed only after a passed bit-exact verification; '
                         'rerun without overwrite = no change + status 0; first / forced run without fault = status 1 + complete valid set; '
                         'NP1 -> -1, already split -> 0, both untouched',
             'how': 'harness/props/c04.py: run_history(Rec.of(cfg), cfg["orig"], calls=[parse_call(t) for t in calls]) -> '
-                   'oracle_step after each call (NP2Converter(file, post_check, delete_original, compress).init_params(nwindow=w).process(overwrite))'}
+                   'oracle_step after each call (NP2Converter(file, post_check, delete_original, compress).init_params(nwindow=w[, nshank=sel]).process(overwrite))'}
 
 
 def _demo_partial_folders():
